@@ -286,8 +286,16 @@ def addrIntOf (ss : List Stmt) (i : Nat) : Option Nat := (addrOf ss i).bind Valu
 def addrOffset (ss : List Stmt) (v : Value) : Outcome Value :=
   match v with
   | .expr l r op _ _ =>
-    match (if l.isAddress then l.int? else r.int?), (if l.isNumeric then l.int? else r.int?) with
-    | some ai, some add =>
+    let other := if l.isAddress then r else l
+    let addOf : Outcome Nat :=                    -- the other operand: a label's address, a number, else "unresolved expression"
+      if other.isAddress then (match other.int? with
+                               | some j => (match addrIntOf ss j with | some x => .ok x | none => .internal)
+                               | none => .internal)
+      else if other.isNumeric then (match other.int? with | some n => .ok n | none => .internal)
+      else .diag
+    match (if l.isAddress then l.int? else r.int?), addOf with
+    | _, .diag => .diag
+    | some ai, .ok add =>
       match addrIntOf ss ai with
       | none => .internal
       | some a =>
